@@ -12,6 +12,47 @@ Trace == ndJsonDeserialize("trace.ndjson")
 VARIABLES l, bad
 tvars == <<l, bad>>
 
+---------------------------------------------------------------------------
+(* Drift: beyond the listed properties, the implementation-shaped layer of every codec module is compared with the
+   real reader on ARBITRARY inputs (outside every property's domain).  A difference is reported as a NOTE, never as
+   a violation: it means the specification's account of the code's behaviour needs updating (or the code changed
+   behaviour where no property constrains it). *)
+FA == INSTANCE Fasta
+FQ == INSTANCE Fastq
+SM == INSTANCE Sam
+BD == INSTANCE Bed
+TokSet(ts) == { ts[i] : i \in 1..Len(ts) }
+NoD == <<>>
+BadD == <<0 - 1>>
+
+\* generic projection of the specifications' items
+GRec(fs) == [k |-> "rec", f |-> fs]
+GErr == [k |-> "err", f |-> <<>>]
+FaG(recs) == [i \in 1..Len(recs) |-> GRec(<<recs[i].name, recs[i].seq>>)]
+FqG(its) == [i \in 1..Len(its) |-> IF its[i].k = "err" THEN GErr ELSE GRec(<<its[i].name, its[i].seq, its[i].quals>>)]
+\* sam: 11 fields, then (key, type, value) per tag; float values and atoms are blanked on both sides
+SmTagsG(ts) == FlattenSeq([i \in 1..Len(ts) |-> <<ts[i].key, ts[i].ty, IF ts[i].ty = SM!Tyf THEN <<>> ELSE ts[i].val>>])
+SmG(its) == [i \in 1..Len(its) |-> IF its[i].k = "err" THEN GErr
+                                    ELSE IF its[i].k = "hdr" THEN [k |-> "hdr", f |-> <<its[i].text>>]
+                                    ELSE GRec(its[i].f \o SmTagsG(its[i].tags))]
+SmRealG(its) == [i \in 1..Len(its) |->
+                   IF its[i].k # "rec" THEN its[i]
+                   ELSE LET f == its[i].f  nt == (Len(f) - 11) \div 4
+                        IN GRec(SubSeq(f, 1, 11) \o FlattenSeq([j \in 1..nt |->
+                               <<f[8 + 4 * j], f[9 + 4 * j], IF f[9 + 4 * j] = SM!Tyf THEN <<>> ELSE f[10 + 4 * j]>>]))]
+BdG(its) == [i \in 1..Len(its) |-> IF its[i].k = "err" THEN GErr ELSE GRec(<<BD!DecText(its[i].n)>> \o its[i].f)]
+
+Drift(e) ==
+  LET F == TokSet(e.floats)
+      FloatOK(v) == v \in F
+      U8 == { <<e.u8[i][1], e.u8[i][2]>> : i \in 1..Len(e.u8) }
+  IN CASE e.fmt = "fasta" -> e.items # FaG(FA!Machine(e.bytes))
+       [] e.fmt = "fastq" -> e.items # FqG(FQ!Machine(ScanLines(e.bytes)))
+       [] e.fmt = "sam"   -> SmRealG(e.items) # SmG(SM!Denote(e.bytes, "records", FloatOK))
+       [] e.fmt = "samh"  -> SmRealG(e.items) # SmG(SM!Denote(e.bytes, "header", FloatOK))
+       [] e.fmt = "bed"   -> e.items # BdG(BD!Denote(e.bytes, U8))
+       [] OTHER -> FALSE
+
 Free(s, B) == \A i \in 1..Len(s) : s[i] \notin B
 
 DelimFree(fmt, r) ==
@@ -19,9 +60,9 @@ DelimFree(fmt, r) ==
     [] fmt = "fastq"  -> \A i \in 1..3 : Free(r.f[i], {CR, LF})
     [] fmt \in {"sam", "samh"} ->
          /\ \A i \in 1..11 : Free(r.f[i], {TAB, CR, LF})
-         /\ \A j \in 0..(((Len(r.f) - 11) \div 4) - 1) :
-              /\ Free(r.f[12 + 4 * j], {TAB, CR, LF})
-              /\ (r.f[13 + 4 * j] # <<72>> => Free(r.f[14 + 4 * j], {TAB, CR, LF}))     \* H values are hex encoded
+         /\ \A j \in 1..((Len(r.f) - 11) \div 4) :
+              /\ Free(r.f[8 + 4 * j], {TAB, CR, LF})
+              /\ (r.f[9 + 4 * j] # <<72>> => Free(r.f[10 + 4 * j], {TAB, CR, LF}))     \* H values are hex encoded
     [] fmt = "bed"    -> \A i \in 1..Len(r.f) : Free(r.f[i], {TAB, CR, LF})
     [] OTHER -> TRUE                                       \* newick quotes whatever needs quoting
 
@@ -34,6 +75,7 @@ Reason(e) ==
          ELSE IF e.capped THEN "decoder-yields-without-end"
          ELSE IF \E i \in 1..Len(e.items) : e.items[i].k \notin Kinds THEN "item-neither-record-nor-error"
          ELSE IF e.fmt \in {"sam", "bed"} /\ \E i \in 1..Len(e.items) : e.items[i].k = "hdr" THEN "header-from-a-record-reader"
+         ELSE IF e.full /\ Drift(e) THEN "NOTE-drift-real-reader-differs-from-the-specifications-machine"
          ELSE "ok"
     [] e.op = "fixpoint" ->
          IF ~DelimFree(e.fmt, e.rec) THEN "ok"
